@@ -64,7 +64,7 @@ type Dac3Box struct {
 
 // DecodeDac3 - box-specific decode
 func DecodeDac3(hdr BoxHeader, startPos uint64, r io.Reader) (Box, error) {
-	data, err := io.ReadAll(r)
+	data, err := readBoxBody(r, hdr)
 	if err != nil {
 		return nil, err
 	}
@@ -100,7 +100,7 @@ func decodeDac3FromData(data []byte) (Box, error) {
 	b.BitRateCode = byte(br.Read(5))
 	// 5 bits reserved follows
 	b.Reserved = byte(br.Read(5))
-	return &b, nil
+	return &b, br.AccError()
 }
 
 // Type - box type
